@@ -335,6 +335,19 @@ func allKinds() []*wkind {
 			goOps: structSliceGo[:3]},
 		depthQ: 3, depthT: 4})
 
+	// more than 20 elements: sort.Stable leaves insertion sort and rotates blocks, swapping elements whose
+	// wrappers were never created (partially filled wrapper cache)
+	ks = append(ks, &wkind{name: "*[]struct/26-sort", mk: func() interface{} {
+		s := make([]S, 0, 27)
+		for i := 0; i < 26; i++ {
+			a := (i*7 + 3) % 26
+			s = append(s, S{a, string(rune('a' + a)), In{a * 10}})
+		}
+		return &s
+	}, probes: []string{"0", "25", "26"},
+		alpha: alphabet{targets: []target{tgtW, tgtH0}, keys: []keyDef{kIdx(0), kIdx(12), kIdx(25), kStr("A")},
+			takes: []int{0, 1}, vals: []valDef{val7, valH0}, arrayOps: true},
+		depthQ: 2, depthT: 3})
 	ks = append(ks, &wkind{name: "*[]*struct", mk: func() interface{} {
 		return ptr(sliceWithSpare(&S{3, "c", In{30}}, &S{1, "a", In{10}}, nil))
 	}, probes: []string{"0", "2", "3", "A"},
